@@ -12,6 +12,14 @@ Each variant applies ONE local, behaviour-preserving rewrite to ONE site of /rep
   T9  dict(map(lambda d: (K, V), E)) -> {K: V for d in E}
   T12 return E                      ->  _result = E ; return _result
   T14 a OP b                        ->  b OP' a   for ==, !=, <, <=, >, >= between side-effect-free operands
+  T4  if c: A else: B               ->  if not c: B else: A
+  T5  "lit {} {:02x}".format(a, b)  ->  f"lit {a} {b:02x}"         (literal template, positional auto-numbered fields)
+  T15 if a and b: X   (no else)     ->  if a:\n if b: X
+  T17 map(lambda v: E, xs)          ->  (E for v in xs) ;  list(filter(lambda v: P, xs)) -> [v for v in xs if P]
+  T20 return A if c else B          ->  if c: return A\n return B
+  T30 def f(...): BODY              ->  def f(...): logger.debug("entering f"); BODY      (modules that define `logger`)
+  T32 every occurrence of one private name `_x` (attribute, method, function, module constant) in the package
+                                    ->  `_x_renamed`   (consistent rename; tolerated answers: 0 or 2 "anchor vanished")
 
 A sound checker answers 0 on every such tree (2 = "cannot decide" is tolerated but reported); a VIOLATION
 is a rule that matches the shape of today's code instead of its meaning.
@@ -93,6 +101,29 @@ def candidates(tree: ast.Module) -> List[Tuple[str, ast.AST]]:
                 out.append(("T9", n))
         if isinstance(n, ast.Return) and n.value is not None and not isinstance(n.value, (ast.Name, ast.Constant)):
             out.append(("T12", n))
+        if isinstance(n, ast.If) and n.orelse and not (len(n.orelse) == 1 and isinstance(n.orelse[0], ast.If)):
+            out.append(("T4", n))
+        if isinstance(n, ast.If) and not n.orelse and isinstance(n.test, ast.BoolOp) and isinstance(n.test.op, ast.And) and len(n.test.values) == 2:
+            out.append(("T15", n))
+        if (isinstance(n, ast.Call) and isinstance(n.func, ast.Attribute) and n.func.attr == "format" and isinstance(n.func.value, ast.Constant)
+                and isinstance(n.func.value.value, str) and not n.keywords and n.args and not any(isinstance(a, ast.Starred) for a in n.args)):
+            import string
+            try:
+                fields = [(lit, fn, spec, conv) for lit, fn, spec, conv in string.Formatter().parse(n.func.value.value)]
+            except ValueError:
+                fields = []
+            holes = [f for f in fields if f[1] is not None]
+            if holes and all(f[1] == "" and not f[3] and "{" not in (f[2] or "") for f in holes) and len(holes) == len(n.args):
+                out.append(("T5", n))
+        if isinstance(n, ast.Call) and isinstance(n.func, ast.Name) and n.func.id == "map" and len(n.args) == 2 and isinstance(n.args[0], ast.Lambda) and len(n.args[0].args.args) == 1:
+            out.append(("T17", n))
+        if (isinstance(n, ast.Call) and isinstance(n.func, ast.Name) and n.func.id == "list" and len(n.args) == 1 and isinstance(n.args[0], ast.Call)
+                and isinstance(n.args[0].func, ast.Name) and n.args[0].func.id == "filter" and len(n.args[0].args) == 2 and isinstance(n.args[0].args[0], ast.Lambda)):
+            out.append(("T17", n))
+        if isinstance(n, ast.Return) and isinstance(n.value, ast.IfExp):
+            out.append(("T20", n))
+        if isinstance(n, (ast.FunctionDef, ast.AsyncFunctionDef)) and any(isinstance(b, ast.Assign) and any(isinstance(t, ast.Name) and t.id == "logger" for t in b.targets) for b in tree.body):
+            out.append(("T30", n))
     return out
 
 
@@ -135,13 +166,97 @@ class Rewriter(ast.NodeTransformer):
         if k == "T9":
             lam = n.args[0].args[0]
             return ast.DictComp(key=lam.body.elts[0], value=lam.body.elts[1], generators=[ast.comprehension(target=ast.Name(id=lam.args.args[0].arg, ctx=ast.Store()), iter=n.args[0].args[1], ifs=[], is_async=0)])
+        if k == "T4":
+            return ast.If(test=ast.UnaryOp(op=ast.Not(), operand=n.test), body=n.orelse, orelse=n.body)
+        if k == "T15":
+            return ast.If(test=n.test.values[0], body=[ast.If(test=n.test.values[1], body=n.body, orelse=[])], orelse=[])
+        if k == "T5":
+            import string
+            vals: List[ast.expr] = []
+            args = list(n.args)
+            for lit, fn, spec, conv in string.Formatter().parse(n.func.value.value):
+                if lit:
+                    vals.append(ast.Constant(value=lit))
+                if fn is not None:
+                    fs = ast.JoinedStr(values=[ast.Constant(value=spec)]) if spec else None
+                    vals.append(ast.FormattedValue(value=args.pop(0), conversion=-1, format_spec=fs))
+            return ast.JoinedStr(values=vals)
+        if k == "T17":
+            if n.func.id == "map":
+                lam = n.args[0]
+                return ast.GeneratorExp(elt=lam.body, generators=[ast.comprehension(target=ast.Name(id=lam.args.args[0].arg, ctx=ast.Store()), iter=n.args[1], ifs=[], is_async=0)])
+            lam = n.args[0].args[0]
+            v = lam.args.args[0].arg
+            return ast.ListComp(elt=ast.Name(id=v, ctx=ast.Load()), generators=[ast.comprehension(target=ast.Name(id=v, ctx=ast.Store()), iter=n.args[0].args[1], ifs=[lam.body], is_async=0)])
+        if k == "T20":
+            return [ast.If(test=n.value.test, body=[ast.Return(value=n.value.body)], orelse=[]), ast.Return(value=n.value.orelse)]
+        if k == "T30":
+            doc = 1 if (n.body and isinstance(n.body[0], ast.Expr) and isinstance(n.body[0].value, ast.Constant) and isinstance(n.body[0].value.value, str)) else 0
+            log = ast.Expr(value=ast.Call(func=ast.Attribute(value=ast.Name(id="logger", ctx=ast.Load()), attr="debug", ctx=ast.Load()), args=[ast.Constant(value=f"entering {n.name}")], keywords=[]))
+            n.body.insert(doc, log)
+            return n
         if k == "T12":
             return [ast.Assign(targets=[ast.Name(id="_result", ctx=ast.Store())], value=n.value, lineno=n.lineno), ast.Return(value=ast.Name(id="_result", ctx=ast.Load()))]
         raise ValueError(k)
 
 
+def _py_files(root: str) -> List[str]:
+    out = []
+    for dp, _, fns in os.walk(root):
+        for fn in fns:
+            if fn.endswith(".py"):
+                out.append(os.path.join(dp, fn))
+    return sorted(out)
+
+
+def private_names(repo: str) -> List[str]:
+    """Private identifiers (NAME tokens `_x`, not dunder) used at least twice in the package and never spelled
+    inside a string literal (hasattr(self, "_x") / getattr would make a rename of the identifier alone unsound)."""
+    import io
+    import tokenize
+    names: Dict[str, int] = {}
+    in_strings: set = set()
+    for q in _py_files(os.path.join(repo, "src", "aioswitcher")):
+        with open(q) as fh:
+            src = fh.read()
+        for tok in tokenize.generate_tokens(io.StringIO(src).readline):
+            if tok.type == tokenize.NAME and tok.string.startswith("_") and not tok.string.startswith("__") and len(tok.string) > 1 and tok.string[1].isalpha():
+                names[tok.string] = names.get(tok.string, 0) + 1
+            elif tok.type == tokenize.STRING or tok.type == getattr(tokenize, "FSTRING_MIDDLE", -1):
+                for nm in list(names) + [tok.string.strip("\"'")]:
+                    if nm and nm in tok.string:
+                        in_strings.add(nm)
+    # second pass for names first seen after the string that mentions them
+    for q in _py_files(os.path.join(repo, "src", "aioswitcher")):
+        with open(q) as fh:
+            src = fh.read()
+        for tok in tokenize.generate_tokens(io.StringIO(src).readline):
+            if tok.type == tokenize.STRING:
+                for nm in names:
+                    if nm in tok.string:
+                        in_strings.add(nm)
+    return sorted(n for n, k in names.items() if k >= 2 and n not in in_strings)
+
+
+def rename_identifier(src: str, old: str, new: str) -> str:
+    import io
+    import tokenize
+    toks = list(tokenize.generate_tokens(io.StringIO(src).readline))
+    lines = src.split("\n")
+    # replace from the end so that columns stay valid
+    for tok in reversed(toks):
+        if tok.type == tokenize.NAME and tok.string == old:
+            r, col = tok.start
+            line = lines[r - 1]
+            lines[r - 1] = line[:col] + new + line[col + len(old):]
+    return "\n".join(lines)
+
+
 def all_sites(repo: str, kinds: Optional[List[str]]) -> List[Tuple[str, str, int, str]]:
     out = []
+    if not kinds or "T32" in kinds:
+        for i, nm in enumerate(private_names(repo)):
+            out.append(("*", "T32", i, nm))
     for rel in FILES:
         with open(os.path.join(repo, rel)) as fh:
             src = fh.read()
@@ -157,6 +272,17 @@ def make_variant(repo: str, site: Tuple[str, str, int, str]) -> str:
     rel, k, i, _ = site
     tmp = tempfile.mkdtemp(prefix="sa_rewrite_")
     shutil.copytree(os.path.join(repo, "src"), os.path.join(tmp, "src"), ignore=shutil.ignore_patterns("__pycache__", "*.pyc"))
+    if k == "T32":
+        nm = site[3]
+        for q in _py_files(os.path.join(tmp, "src")):
+            with open(q) as fh:
+                txt = fh.read()
+            new_txt = rename_identifier(txt, nm, nm + "_renamed")
+            if new_txt != txt:
+                ast.parse(new_txt)
+                with open(q, "w") as fh:
+                    fh.write(new_txt)
+        return tmp
     path = os.path.join(tmp, rel)
     with open(path) as fh:
         tree = ast.parse(fh.read())
